@@ -618,9 +618,47 @@ def run(run):
         if not ok:
             raise tlc.TLCFailure("binding self-test failed: " + msg)
         run.extra["binding_selftest"] = "reversing one SeqRun call log is rejected at that line"
+    # --- (D) the repository's own tests as a trace source: every SequentialModel / DeepJSCCModel / ChannelCodeModel run they make --------------
+    if not run.only:
+        repo_test_traces(run)
     run.assumptions += ["branch callables are opaque: the pool model abstracts a branch to Start/Finish",
                         "as_completed may legally yield finished futures in any order (collect-order binder)"]
     run.exhaustive = True
+
+
+def repo_test_traces(run):
+    import json
+    import os
+    import subprocess
+    import tempfile
+    from . import core
+    fd, out = tempfile.mkstemp(prefix="kvrepotrace_", suffix=".ndjson")
+    os.close(fd)
+    try:
+        env = dict(os.environ, KV_TRACE_OUT=out, PYTHONPATH=core.ROOT + os.pathsep + core.REPO)
+        cmd = ["/venv/bin/python", "-m", "pytest", "-q", "-p", "no:cacheprovider", "-p", "kv.repotrace_seq_plugin", "tests/models/test_models_generic.py", "tests/models/test_models_base.py",
+               "tests/models/test_models_channel_code.py", "tests/models/test_models_deepjscc.py", "-q"]
+        pr = subprocess.run(cmd, cwd=core.REPO, env=env, stdout=subprocess.PIPE, stderr=subprocess.STDOUT, text=True, timeout=1200)
+        evs = [json.loads(ln) for ln in open(out)] if os.path.getsize(out) else []
+    finally:
+        try:
+            os.unlink(out)
+        except OSError:
+            pass
+    if len(evs) < 5:
+        raise tlc.TLCFailure("repository tests produced only %d pipeline runs (pytest: %s)" % (len(evs), (pr.stdout.strip().splitlines() or ["?"])[-1]))
+    for e in evs:
+        run.case(("repo-tests", e["tid"]), nontrivial=len(e["steps"]) >= 2)
+    mism = tv.validate(run, "Trace_Pipelines", evs, name="TV repository tests (sequential pipeline runs)", count_trace=False)
+    run.traces += len(evs)
+    run.extra["repository_test_trace"] = {"pipeline_runs": len(evs), "pytest": (pr.stdout.strip().splitlines() or ["?"])[-1][:120]}
+    seen = set()
+    for (t, line, clause) in mism:
+        e = evs[line - 1]
+        if (e["kind"], clause) in seen:
+            continue
+        seen.add((e["kind"], clause))
+        run.violate(e["kind"], clause, {"event": "SeqRun", "form": "repository_tests"}, e, "pipeline run recorded from the repository's own tests rejected by Trace_Pipelines")
 
 
 def _fact(n):
